@@ -19,7 +19,7 @@ def resStr (p : St) : Res → String
 def countNexts (p : St) : Nat → List (String × Nat) → St × List (String × Nat)
   | 0, acc => (p, acc)
   | n + 1, acc =>
-    let r := p.nextServer
+    let r := p.nextServerFrom
     let k := (resStr p r.1).replace " " ":"
     let acc' := match acc.find? (·.1 == k) with
       | some _ => acc.map fun e => if e.1 == k then (e.1, e.2 + 1) else e
@@ -33,6 +33,13 @@ def step (p : St) : List String → St × String
     | none => (p, "bad-op")
     | some w => (p.upsert k (some w), "ok")
   | ["upsert", k] => (p.upsert k none, "ok")
+  | "upserts" :: k :: ws =>
+    -- several Weight options in one call; a negative one fails after the earlier ones were applied
+    match ws.mapM String.toInt? with
+    | none => (p, "bad-op")
+    | some xs =>
+      let r := p.upsertOpts k xs
+      (r.1, if r.2 then "ok" else "err Weight_should_be_>=_0")
   | ["remove", k] =>
     match p.remove k with
     | some p' => (p', "ok")
@@ -42,11 +49,11 @@ def step (p : St) : List String → St × String
     | some w => (p, toString w)
     | none => (p, "none")
   | ["next"] =>
-    let r := p.nextServer
+    let r := p.nextServerFrom
     (r.2, resStr p r.1)
   | ["nextm"] =>
     -- the caller mutates its copy of the URL afterwards: nothing happens to the pool
-    let r := p.nextServer
+    let r := p.nextServerFrom
     (r.2, resStr p r.1)
   | ["pnext", a, b] =>
     match a.toNat?, b.toNat? with
